@@ -412,6 +412,12 @@ Section SMITHSET.
       + apply (Hcl b a Hwt Hia).
   Qed.
 
+  Lemma smith_subset x : In x O -> In x cs.
+  Proof.
+    destruct (smith_schwartz_closed v true) as (HO & _ & _). fold O in HO. rewrite HO. intros H.
+    apply firstn_idx in H. apply order_in. tauto.
+  Qed.
+
   Theorem smith_minimal (D : list C) : D <> [] ->
     (forall a b, In a D -> In b cs -> ~ In b D -> beats v a b) -> incl O D.
   Proof.
